@@ -345,8 +345,7 @@ impl<S: Read + Write> Client<S> {
     pub fn shutdown(&mut self) -> RdpResult<()> {
         self.x224.write(trame![
             mcs_pdu_header(Some(DomainMCSPDU::DisconnectProviderUltimatum), Some(1)),
-            per::write_enumerates(0x80)?,
-            b"\x00\x00\x00\x00\x00\x00".to_vec()
+            per::write_enumerates(0x80)?
         ])?;
         self.x224.shutdown()
     }
